@@ -187,7 +187,8 @@ class World:
         self.mod = mod
         self.bess = None
         self.kernel = {}       # prefix -> next hop
-        self.resolved = set()  # next hops whose MAC the kernel knows
+        self.resolved = set()  # next hops whose RTM_NEWNEIGH has been delivered to the controller
+        self.visible = set()   # next hops whose MAC the kernel knows (the neighbour table shows it); the event may still be in flight
         self.ndb = FakeNDB(IFACES)
         bc = mod.BessController("localhost", "10514")
         self.bess = FakeBESS.current
@@ -213,11 +214,18 @@ class World:
                 _, p = ev
                 nh = self.kernel.pop(tuple(p))
                 self.rc._netlink_route_handler(None, self.route_msg("RTM_DELROUTE", tuple(p), nh))
+            elif kind == "neighvis":
+                # the kernel resolves the next hop: the neighbour table (NDB) shows it; its RTM_NEWNEIGH is still on its way
+                _, nh = ev
+                self.visible.add(nh)
+                self.ndb._neigh.append({"dst": nh, "lladdr": NEXT_HOPS[nh][1]})
             elif kind == "newneigh":
                 _, nh = ev
-                self.resolved.add(nh)
                 mac = NEXT_HOPS[nh][1]
-                self.ndb._neigh.append({"dst": nh, "lladdr": mac})
+                if nh not in self.visible:
+                    self.visible.add(nh)
+                    self.ndb._neigh.append({"dst": nh, "lladdr": mac})
+                self.resolved.add(nh)
                 self.rc._netlink_neighbor_handler(None, {"event": "RTM_NEWNEIGH", "attrs": [("NDA_DST", nh), ("NDA_LLADDR", mac)]})
         except BaseException as e:  # noqa
             self.escaped = "%s: %s" % (type(e).__name__, e)
@@ -228,6 +236,8 @@ class World:
         for nh in nhs:
             if nh not in self.resolved:
                 evs.append(("newneigh", nh))
+                if nh not in self.visible:
+                    evs.append(("neighvis", nh))
         for p in pfx:
             if tuple(p) in self.kernel:
                 evs.append(("delroute", list(p)))
@@ -242,7 +252,7 @@ class World:
         def dump(d):
             # private caches are rendered generically (dataclass reprs), so that their shape may change
             return tuple(sorted((repr(k), repr(v)) for k, v in d.items()))
-        return repr((tuple(sorted(self.kernel.items())), tuple(sorted(self.resolved)), dump(rc._unresolved_arp_queries_cache),
+        return repr((tuple(sorted(self.kernel.items())), tuple(sorted(self.resolved)), tuple(sorted(self.visible)), dump(rc._unresolved_arp_queries_cache),
                      dump(rc._neighbor_cache), dump(rc._module_gate_count_cache), self.bess.graph(), self.escaped))
 
     # ---- refRoutes
@@ -256,7 +266,10 @@ class World:
         for iface in IFACES:
             table = self.bess.routes[iface + "Routes"]
             want = {p for p, nh in self.kernel.items() if NEXT_HOPS[nh][0] == iface and nh in self.resolved}
-            have = set(table)
+            # while the RTM_NEWNEIGH of a next hop is in flight, a route through it may or may not be installed yet (a route
+            # added meanwhile finds the MAC in the neighbour table, an older one waits for the event)
+            maybe = {p for p, nh in self.kernel.items() if NEXT_HOPS[nh][0] == iface and nh in self.visible and nh not in self.resolved}
+            have = set(table) - maybe
             if want - have:
                 p = sorted(want - have)[0]
                 waiting = "" if self.kernel[p] not in () else ""
@@ -266,7 +279,7 @@ class World:
                 why = "the kernel no longer has it" if p not in self.kernel else "its next hop %s is unresolved" % self.kernel[p]
                 return ("route-extra", "%sRoutes holds %s/%d but %s" % (iface, p[0], p[1], why))
             gate_of = {}
-            for p in want:
+            for p in sorted(want | (maybe & set(table))):
                 nh = self.kernel[p]
                 g = table[p]
                 if nh in gate_of and gate_of[nh] != g:
